@@ -89,6 +89,12 @@ struct rset *rset_make(int n, char **re, int flg)
 /* return the index of the matching regular expression or -1 if none matches */
 int rset_find(struct rset *rs, char *s, int n, int *grps, int flg)
 {
+	return rset_findat(rs, s, 0, n, grps, flg);
+}
+
+/* like rset_find(), but start searching s at byte offset off */
+int rset_findat(struct rset *rs, char *s, int off, int n, int *grps, int flg)
+{
 	regmatch_t *subs;
 	int found, i, set = -1;
 	int regex_flg = REG_NEWLINE;
@@ -99,7 +105,7 @@ int rset_find(struct rset *rs, char *s, int n, int *grps, int flg)
 	if (flg & RE_NOTEOL)
 		regex_flg |= REG_NOTEOL;
 	subs = malloc(rs->grpcnt * sizeof(subs[0]));
-	found = !regexec(&rs->regex, s, rs->grpcnt, subs, regex_flg);
+	found = !regexec_at(&rs->regex, s, off, rs->grpcnt, subs, regex_flg);
 	for (i = 0; found && i < rs->n; i++)
 		if (rs->grp[i] >= 0 && subs[rs->grp[i]].rm_so >= 0)
 			set = i;
